@@ -315,7 +315,7 @@ func (r *seqRun) verify(hit *dns.Msg, qid uint16, pr *pristine, rule ttlRule, wa
 	return true
 }
 
-var badMisses atomic.Int64
+var badMisses, plainSamples, lazySamples atomic.Int64
 
 func (r *seqRun) unexpectedMiss(what string, since time.Time, lifetime time.Duration) {
 	if lifetime > 0 && time.Since(since) > lifetime-1500*time.Millisecond {
@@ -495,7 +495,7 @@ func runPlain(e *env, c seqCase) {
 	for _, o := range r.objs {
 		r.checkUntouched(o)
 	}
-	if rep.WantSample() && c.Idx%97 == 3 {
+	if c.Idx%97 == 3 && plainSamples.Add(1) <= 3 {
 		rep.Sample(map[string]any{"case": c, "question": r.name, "history": r.log})
 	}
 }
@@ -694,7 +694,7 @@ func runLazyCase(e *env, st *lazyState) {
 	for _, o := range r.objs {
 		r.checkUntouched(o)
 	}
-	if rep.WantSample() && c.Idx%41 == 5 {
+	if c.Idx%41 == 5 && lazySamples.Add(1) <= 2 {
 		rep.Sample(map[string]any{"case": c, "question": r.name, "history": r.log})
 	}
 }
